@@ -258,6 +258,54 @@ class DiscreteStridedIntervalSet(StridedInterval):
 
         return self.collapse() >= o
 
+    @convert_operand_to_si
+    @collapse_operand
+    def SLT(self, o):
+        """
+        Operation <s
+
+        :param o:   The other operand.
+        :return:    An instance of BoolResult.
+        """
+
+        return self.collapse().SLT(o)
+
+    @convert_operand_to_si
+    @collapse_operand
+    def SLE(self, o):
+        """
+        Operation <=s
+
+        :param o:   The other operand.
+        :return:    An instance of BoolResult.
+        """
+
+        return self.collapse().SLE(o)
+
+    @convert_operand_to_si
+    @collapse_operand
+    def SGT(self, o):
+        """
+        Operation >s
+
+        :param o:   The other operand.
+        :return:    An instance of BoolResult.
+        """
+
+        return self.collapse().SGT(o)
+
+    @convert_operand_to_si
+    @collapse_operand
+    def SGE(self, o):
+        """
+        Operation >=s
+
+        :param o:   The other operand.
+        :return:    An instance of BoolResult.
+        """
+
+        return self.collapse().SGE(o)
+
     # Bitwise operations
 
     @convert_operand_to_si
